@@ -227,6 +227,8 @@ def cfg_hex(tier, seed):
     for rings, drop in ((1, [0]), (2, [0, 3]), (1, []), (2, [1, 2, 18])):
         for rot in (False, True):
             out.append({'what': 'count', 'rings': rings, 'rotate': rot, 'drop': drop})
+    out.append({'what': 'count', 'rings': 1, 'rotate': False, 'drop': [], 'R': 6})
+    out.append({'what': 'count', 'rings': 2, 'rotate': True, 'drop': [5], 'R': 4})
     return out, len(out), True
 
 
@@ -235,13 +237,17 @@ def run_hex(W, cfg):
     S = W.mod('segmented')
     rings, rot = cfg['rings'], cfg['rotate']
     if cfg['what'] == 'count':
-        R, g = 2.5, 0.5
+        R, g = cfg.get('R', 2.5), 0.5
         m = lt.hex_segments(rings, R, g, rotate=rot, antialias=False, drop=tuple(cfg['drop']), pad=2)
         m = W.concrete(m)
         nseg = 1 + 3 * rings * (rings + 1) - len(cfg['drop'])
         W.ob_true('1 + 3k(k+1) - dropped segments', m.shape[0] == nseg)
         W.ob_true('square array', m.shape[1] == m.shape[2])
         flat = m.sum(axis=0)
+        W.ob_true('binary without antialiasing (every segment, the centre one included)', bool(rnp.isin(m, (0, 1)).all()))
+        area = m.reshape(m.shape[0], -1).sum(axis=1)
+        W.ob_true('every segment is non-empty', bool((area > 0).all()))
+        W.ob_true('equal area up to edge sampling (spread below half the perimeter in samples)', float(area.max() - area.min()) <= 3 * R)
         W.ob_true('segments do not overlap (non-antialiased, this geometry)', bool((flat <= 1).all()))
         W.ob_true('clear of the array border', bool(flat[0].sum() == 0 and flat[-1].sum() == 0 and flat[:, 0].sum() == 0 and flat[:, -1].sum() == 0))
         f2 = lt.hex_segments(rings, R, g, rotate=rot, antialias=False, drop=tuple(cfg['drop']), pad=2, flatten=True)
